@@ -284,6 +284,9 @@ def check_gtf_duplicates(gtf):
                 return check_gff3_duplicates(handle)
 
         attrs = attribute_column.split(" ")
+        if "" in attrs:
+            # several blanks in a row: only those outside quotes are padding (see below), cut the column quote-aware
+            attrs = QUOTE_AWARE_TOKEN.findall(attribute_column)
         gene_id_pos = attribute_value_position(attrs, 'gene_id')
         if gene_id_pos != -1 and attrs[gene_id_pos].count('"') == 1:
             # a quoted value holds a blank: cut the column at the blanks outside the quotes
@@ -389,16 +392,15 @@ def check_gtf_duplicates(gtf):
                     gtf_correct = False
                 exons.append(exon)
 
-        # gffutils cuts key and value at the FIRST blank: for `gene_id  "G1";` it reads the id ` "G1"` (blank and quotes
-        # included), i.e. another gene / transcript than this check does; the corrected annotation has a single blank
-        padding = set()
-        for value_pos in [gene_id_pos] + ([transcript_id_pos] if feature_type != "gene" else []):
-            j = value_pos - 1
-            while j > 0 and attrs[j] == "":
-                padding.add(j)
-                j -= 1
+        # gffutils cuts the column at "; " and key and value at the FIRST blank: for `gene_id  "G1";` it reads the id ` "G1"`
+        # (blank and quotes included) and for `gene_id "G1";  transcript_id "T1";` (or a column that starts with a blank)
+        # an attribute with an EMPTY key - the record has no transcript_id / gene_id at all - i.e. another gene /
+        # transcript than this check does; the other attributes are misread the same way (gene_name " "X" in the output
+        # annotations). Every blank outside quotes that follows another blank or starts the column is padding: the
+        # corrected annotation has single blanks
+        padding = set(i for i in range(len(attrs)) if attrs[i] == "")
         if padding:
-            logger.warning("Several blanks between gene_id / transcript_id and its value on line %d" % line_count)
+            logger.warning("Several blanks between attributes, or between an attribute and its value, on line %d" % line_count)
             gtf_correct = False
 
         new_attrs = []
